@@ -2,7 +2,7 @@ use std::rc::Rc;
 
 use crate::{
     cfg::Cfg,
-    parser::{HasRegisterSets, InstructionProperties, Register},
+    parser::{HasRegisterSets, InstructionProperties, Register, RegisterProperties},
     passes::{DiagnosticLocation, DiagnosticManager, LintError, LintPass},
 };
 
@@ -40,7 +40,12 @@ impl LintPass for DeadValueCheck {
             // to the end of the node. These assignments are not
             // used.
             else if let Some(def) = node.writes_to() {
-                if !node.live_out().contains(def.get()) && !node.can_skip_save_checks() {
+                // Moving the stack pointer is not computing a value: the main
+                // program releases its frame and exits without reading sp again
+                if !node.live_out().contains(def.get())
+                    && !node.can_skip_save_checks()
+                    && !def.get().is_stack_pointer()
+                {
                     errors.push(LintError::DeadAssignment(def));
                 }
             }
